@@ -42,7 +42,7 @@ let run (path : String.t) =
       done;
       if !stalled then incr stalled_cases;
       if not !ended then (prop := false; note "case did not finish");
-      let all_ok = List.length !probes = 2 && List.for_all (fun (_, r) -> r = "ok") !probes in
+      let all_ok = List.length !probes >= 2 && List.for_all (fun (_, r) -> r = "ok") !probes in
       List.iter (fun (pat, r) -> if r <> "ok" then (prop := false; note (Printf.sprintf "with %d registrations queued on the stalled topic (%s the stall) a %s round trip on another topic failed: %s" nreg order pat r))) !probes;
       let before = (match order with "before" -> nreg | "half" -> nreg / 2 | _ -> 0) in
       let predicted = stall_predict (n_of_int before) (n_of_int (nreg - before)) in
